@@ -27,6 +27,7 @@ type job struct {
 	args  func(dir string) []string // functional options + inputs (files are under dir)
 	setup func(c *core.Ctx, dir string, n int)
 	noPB  bool // command has no --no-progressbar option
+	files []string // side output files (relative to the case directory) compared together with stdout
 }
 
 func w(dir, name string, data []byte) { os.WriteFile(filepath.Join(dir, name), data, 0o644) }
@@ -88,6 +89,18 @@ func jobs() []job {
 		{name: "obipairing:fast-absolute", bin: "obipairing", setup: pairs, args: pairArgs("--fast-absolute", "-D", "3")},
 		{name: "obimultiplex:default", bin: "obimultiplex", setup: mux, args: muxArgs()},
 		{name: "obimultiplex:keep-errors", bin: "obimultiplex", setup: mux, args: muxArgs("--keep-errors", "-e", "1")},
+		{name: "obimultiplex:unidentified", bin: "obimultiplex", setup: mux, files: []string{"unid.fastq"},
+			args: func(d string) []string {
+				return []string{"-t", filepath.Join(d, "sheet.txt"), "-u", filepath.Join(d, "unid.fastq"), filepath.Join(d, "reads.fastq")}
+			}},
+		{name: "obigrep:save-discarded", bin: "obigrep", setup: fa, files: []string{"disc.fasta"},
+			args: func(d string) []string {
+				return []string{"-l", "80", "--save-discarded", filepath.Join(d, "disc.fasta"), filepath.Join(d, "in.fasta")}
+			}},
+		{name: "obigrep:paired", bin: "obigrep", setup: pairs, files: []string{"out_R1.fastq", "out_R2.fastq"},
+			args: func(d string) []string {
+				return []string{"-s", "^[ac]", "--paired-mode", "or", "--paired-with", filepath.Join(d, "r.fastq"), "-o", filepath.Join(d, "out.fastq"), filepath.Join(d, "f.fastq")}
+			}},
 		{name: "obipcr:e2", bin: "obipcr", setup: pcr, args: pcrArgs("-e", "2", "-L", "400")},
 		{name: "obipcr:flank", bin: "obipcr", setup: pcr, args: pcrArgs("-e", "1", "-L", "300", "-l", "10", "-D", "5")},
 		{name: "obicount:all", bin: "obicount", setup: fa, args: in("in.fasta"), noPB: true},
@@ -123,7 +136,21 @@ func runJob(c *core.Ctx, bindir string, j job, dir string, k config, raceLog str
 	if raceLog != "" {
 		env = append(env, "GORACE=halt_on_error=0 log_path="+raceLog)
 	}
-	return cmdx.Run(filepath.Join(bindir, j.bin), args, cmdx.Opt{Env: env, Timeout: 300 * time.Second})
+	for _, f := range j.files {
+		os.Remove(filepath.Join(dir, f))
+	}
+	res := cmdx.Run(filepath.Join(bindir, j.bin), args, cmdx.Opt{Env: env, Timeout: 300 * time.Second})
+	// side output files are part of the compared output
+	for _, f := range j.files {
+		b, err := os.ReadFile(filepath.Join(dir, f))
+		res.Stdout = append(res.Stdout, []byte("\n==== "+f+" ====\n")...)
+		if err != nil {
+			res.Stdout = append(res.Stdout, []byte("<missing>")...)
+		} else {
+			res.Stdout = append(res.Stdout, b...)
+		}
+	}
+	return res
 }
 
 func digest(b []byte) string { return fmt.Sprintf("%x", sha1.Sum(b))[:12] }
